@@ -47,6 +47,8 @@ func main() {
 			codecCheck(c, `{"C05"}`)
 		case "C06":
 			checkC06(c)
+		case "C17":
+			checkC17(c)
 		case "C18":
 			checkC18(c)
 		case "C19":
